@@ -5,12 +5,14 @@ import (
 	"crypto"
 	"crypto/sha512"
 	"fmt"
+	"io"
 
 	"github.com/oasisprotocol/curve25519-voi/curve"
 	"github.com/oasisprotocol/curve25519-voi/curve/scalar"
 	"github.com/oasisprotocol/curve25519-voi/primitives/ed25519"
 	"github.com/oasisprotocol/curve25519-voi/primitives/ed25519/extra/cache"
 	"github.com/oasisprotocol/curve25519-voi/primitives/ed25519/extra/ecvrf"
+	"github.com/oasisprotocol/curve25519-voi/primitives/merlin"
 	"github.com/oasisprotocol/curve25519-voi/primitives/x25519"
 )
 
@@ -67,7 +69,7 @@ func c19MoreTargets() []c19Target {
 			return c19Res{ok: err == nil}
 		}})
 	// default-option forms
-	add(c19Target{name: "ed25519.Verify(signature)", size: 64, gen: genEdSig,
+	add(c19Target{scalarAt: []int{32}, name: "ed25519.Verify(signature)", size: 64, gen: genEdSig,
 		try: func(c *c19Ctx, prev, b []byte) c19Res {
 			return c19Res{ok: ed25519.Verify(c.aux["pk"], c.aux["msg"], b)}
 		}})
@@ -75,7 +77,7 @@ func c19MoreTargets() []c19Target {
 		try: func(c *c19Ctx, prev, b []byte) c19Res {
 			return c19Res{ok: ed25519.Verify(b, c.aux["msg"], c.aux["sig"])}
 		}})
-	add(c19Target{name: "ed25519.VerifyExpanded(signature)", size: 64, gen: genEdSig,
+	add(c19Target{scalarAt: []int{32}, name: "ed25519.VerifyExpanded(signature)", size: 64, gen: genEdSig,
 		try: func(c *c19Ctx, prev, b []byte) c19Res {
 			e, err := ed25519.NewExpandedPublicKey(c.aux["pk"])
 			if err != nil {
@@ -83,7 +85,7 @@ func c19MoreTargets() []c19Target {
 			}
 			return c19Res{ok: ed25519.VerifyExpanded(e, c.aux["msg"], b)}
 		}})
-	add(c19Target{name: "ed25519.BatchVerifier.Add+AddExpanded(signature)", size: 64, gen: genEdSig,
+	add(c19Target{scalarAt: []int{32}, name: "ed25519.BatchVerifier.Add+AddExpanded(signature)", size: 64, gen: genEdSig,
 		try: func(c *c19Ctx, prev, b []byte) c19Res {
 			e, _ := ed25519.NewExpandedPublicKey(c.aux["pk"])
 			v := ed25519.NewBatchVerifier()
@@ -117,7 +119,7 @@ func c19MoreTargets() []c19Target {
 				continue
 			}
 			oa, ob := &ed25519.Options{Verify: mixPresets[i]}, &ed25519.Options{Verify: mixPresets[j]}
-			add(c19Target{name: fmt.Sprintf("ed25519.BatchVerifier[preset%d next to preset%d](signature)", i, j), size: 64, gen: genEdSig,
+			add(c19Target{scalarAt: []int{32}, name: fmt.Sprintf("ed25519.BatchVerifier[preset%d next to preset%d](signature)", i, j), size: 64, gen: genEdSig,
 				try: func(c *c19Ctx, prev, b []byte) c19Res {
 					good := ed25519.Sign(c.priv, c.aux["msg"])
 					ex, _ := ed25519.NewExpandedPublicKey(c.aux["pk"])
@@ -137,7 +139,7 @@ func c19MoreTargets() []c19Target {
 	// zero-value objects: an ExpandedPublicKey that was never initialised must simply not verify
 	for i := range mixPresets {
 		o := &ed25519.Options{Verify: mixPresets[i]}
-		add(c19Target{name: fmt.Sprintf("ed25519.VerifyExpandedWithOptions[preset%d](zero-value expanded key, signature)", i), size: 64, gen: genEdSig,
+		add(c19Target{scalarAt: []int{32}, name: fmt.Sprintf("ed25519.VerifyExpandedWithOptions[preset%d](zero-value expanded key, signature)", i), size: 64, gen: genEdSig,
 			try: func(c *c19Ctx, prev, b []byte) c19Res {
 				var zero ed25519.ExpandedPublicKey
 				if ed25519.VerifyExpandedWithOptions(&zero, c.aux["msg"], b, o) || ed25519.VerifyExpandedWithOptions(new(ed25519.ExpandedPublicKey), c.aux["msg"], b, o) {
@@ -375,6 +377,85 @@ func c19MoreTargets() []c19Target {
 				return c19Res{bad: fmt.Sprintf("single verification under a valid=%v option struct = %v", valid, ok)}
 			}
 			return c19Res{ok: valid}
+		}})
+	// entropy streams are externally supplied bytes too: the artifact is what the reader delivers before it ends.
+	// Fewer bytes than the call needs is an error; a failed call leaves its receiver as it was (a retry with a
+	// working reader gives what a first attempt gives), never half-way.
+	add(c19Target{name: "merlin.TranscriptRngBuilder.Finalize(entropy stream)", size: 32, anyLength: true,
+		gen: func(c *c19Ctx) []byte { return c.g.Bytes(32) },
+		try: func(c *c19Ctx, prev, b []byte) c19Res {
+			build := func() *merlin.TranscriptRngBuilder {
+				t := merlin.NewTranscript("c19 entropy")
+				t.AppendMessage("m", prev)
+				return t.BuildRng().RekeyWithWitnessBytes("w", prev)
+			}
+			read := func(rd io.Reader) []byte {
+				out := make([]byte, 48)
+				if _, err := rd.Read(out); err != nil {
+					return []byte("read error")
+				}
+				return out
+			}
+			rb := build()
+			rd, err := rb.Finalize(bytes.NewReader(b))
+			if len(b) < 32 {
+				if err == nil || rd != nil {
+					return c19Res{ok: true, bad: fmt.Sprintf("Finalize succeeded on an entropy stream of %d bytes", len(b))}
+				}
+				good := append(clone(b), prev...)
+				rd2, err2 := rb.Finalize(bytes.NewReader(good))
+				rd3, err3 := build().Finalize(bytes.NewReader(good))
+				if err2 != nil || err3 != nil {
+					return c19Res{bad: "Finalize failed on a sufficient entropy stream"}
+				}
+				if !bytes.Equal(read(rd2), read(rd3)) {
+					return c19Res{bad: "a failed Finalize changed the builder: the retry yields another stream than a first attempt with the same entropy"}
+				}
+				return c19Res{}
+			}
+			if err != nil {
+				return c19Res{bad: "Finalize failed on a sufficient entropy stream: " + err.Error()}
+			}
+			rd3, _ := build().Finalize(bytes.NewReader(b[:32]))
+			if !bytes.Equal(read(rd), read(rd3)) {
+				return c19Res{bad: "Finalize depends on entropy bytes beyond the 32 it needs"}
+			}
+			return c19Res{ok: true}
+		}})
+	add(c19Target{name: "scalar.SetRandom / ristretto.SetRandom(entropy stream)", size: 64, anyLength: true,
+		gen: func(c *c19Ctx) []byte { return c.g.Bytes(64) },
+		try: func(c *c19Ctx, prev, b []byte) c19Res {
+			var s scalar.Scalar
+			var p curve.RistrettoPoint
+			if _, err := s.SetBytesModOrderWide(append(clone(prev), prev...)[:64]); err != nil {
+				return c19Res{bad: "harness scalar"}
+			}
+			p.MulBasepoint(curve.RISTRETTO_BASEPOINT_TABLE, &s)
+			s0, p0 := mustMarshal(s.MarshalBinary()), risBytes(&p)
+			rs, serr := s.SetRandom(bytes.NewReader(b))
+			rp, perr := p.SetRandom(bytes.NewReader(b))
+			if len(b) < 64 {
+				if serr == nil || perr == nil || rs != nil || rp != nil {
+					return c19Res{ok: true, bad: fmt.Sprintf("SetRandom succeeded on an entropy stream of %d bytes", len(b))}
+				}
+				s1, p1 := mustMarshal(s.MarshalBinary()), risBytes(&p)
+				if !(bytes.Equal(s1, s0) || bytes.Equal(s1, zeros32)) || !(bytes.Equal(p1, p0) || bytes.Equal(p1, zeros32)) {
+					return c19Res{bad: fmt.Sprintf("after a failed SetRandom the receivers encode to %x / %x: neither their previous values nor zero / identity", s1, p1)}
+				}
+				return c19Res{}
+			}
+			if serr != nil || perr != nil {
+				return c19Res{bad: "SetRandom failed on a sufficient entropy stream"}
+			}
+			ws, _ := scalar.NewFromBytesModOrderWide(b[:64])
+			var wp curve.RistrettoPoint
+			if _, err := wp.SetUniformBytes(b[:64]); err != nil {
+				return c19Res{bad: "SetUniformBytes failed on 64 bytes"}
+			}
+			if s.Equal(ws) != 1 || p.Equal(&wp) != 1 {
+				return c19Res{bad: "SetRandom is not SetBytesModOrderWide / SetUniformBytes of the first 64 entropy bytes"}
+			}
+			return c19Res{ok: true}
 		}})
 	// provers take a private key: the error-returning forms must return an error for a malformed key
 	add(c19Target{name: "ecvrf.ProveWithAddedRandomness(private key)", size: 64,
